@@ -11,7 +11,10 @@
     X(rdlock_rej) X(wrlock_rej)                                               \
     X(createto) X(createon) X(revive) X(reviveto) X(joinmany) X(freemany)     \
     X(payload) X(chkpayload) X(exit) X(cancel) X(xsjoin) X(xsfree)            \
-    X(poolcheck) X(addsched)
+    X(poolcheck) X(addsched)                                                  \
+    X(susp) X(resume) X(sample) X(selfstate) X(expectstate) X(popyt) X(tyt)   \
+    X(popsusp) X(ryt) X(rst) X(popexit) X(rexit) X(presume) X(migpool)        \
+    X(migsched) X(migxs) X(migrate) X(setcb)
 
 enum {
 #define X(n) OP_##n,
@@ -62,8 +65,11 @@ static void run_ops(actor *a)
                         a->skip_mutex = -1;
                 }
             }
-        } else
+        } else {
+            if (G.want_hist)
+                hist(a, "op", a->ops[pc].code, 0, 0);
             exec_op(a, &a->ops[pc]);
+        }
         if (a->pc_heap != pc)
             viol("program counter mismatch after op %s: stack=%d heap=%d (actor kind %d id %d)",
                  opnames[a->ops[pc].code], pc, a->pc_heap, a->kind, a->id);
@@ -184,11 +190,17 @@ static void op_free(actor *a, int ui)
     hist(a, "freed", ui, 0, 0);
 }
 
+static void unit_point_before(actor *a, uint64_t *tick, int *must);
+static void unit_point_after(actor *a, uint64_t tick, int must, const char *what);
 static void actor_yield(actor *a)
 {
     if (is_ult_actor(a)) {
+        uint64_t t;
+        int must;
+        unit_point_before(a, &t, &must);
         int rc = ABT_thread_yield();
         CHECK_RC(rc, "ABT_thread_yield");
+        unit_point_after(a, t, must, "yield");
     } else if (a->kind == A_EXT) {
         if (ds_active())
             ds_point();
@@ -319,6 +331,7 @@ static void op_unlock(actor *a, int m, int variant)
 
 #include "ops_sync.h"
 #include "ops_unit.h"
+#include "ops_switch.h"
 
 /* ------------------------------------------------------------------ */
 static void exec_op(actor *a, op_t *o)
@@ -456,6 +469,60 @@ static void exec_op(actor *a, op_t *o)
             break;
         case OP_addsched:
             op_addsched(a, a0, a1);
+            break;
+        case OP_susp:
+            op_susp(a);
+            break;
+        case OP_resume:
+            op_resume(a, a0);
+            break;
+        case OP_sample:
+            op_sample(a, a0);
+            break;
+        case OP_selfstate:
+            op_selfstate(a);
+            break;
+        case OP_expectstate:
+            op_expectstate(a, a0, a1);
+            break;
+        case OP_popyt:
+            op_switch(a, 0, a0, a1 == -1 && o->a[2] == -1 ? -2 : a1);
+            break;
+        case OP_tyt:
+            op_switch(a, 1, a0, -2);
+            break;
+        case OP_popsusp:
+            op_switch(a, 2, a0, a1 == -1 && o->a[2] == -1 ? -2 : a1);
+            break;
+        case OP_ryt:
+            op_switch(a, 3, a0, -2);
+            break;
+        case OP_rst:
+            op_switch(a, 4, a0, -2);
+            break;
+        case OP_popexit:
+            op_switch(a, 5, a0, a1 == -1 && o->a[2] == -1 ? -2 : a1);
+            break;
+        case OP_rexit:
+            op_switch(a, 6, a0, -2);
+            break;
+        case OP_presume:
+            op_plain_resume(a, a0);
+            break;
+        case OP_migpool:
+            op_mig(a, a0, 0, a1);
+            break;
+        case OP_migsched:
+            op_mig(a, a0, 1, a1);
+            break;
+        case OP_migxs:
+            op_mig(a, a0, 2, a1);
+            break;
+        case OP_migrate:
+            op_mig(a, a0, 3, 0);
+            break;
+        case OP_setcb:
+            op_setcb(a, a0);
             break;
         case OP_join:
             op_join(a, (int)o->a[0]);
@@ -639,6 +706,10 @@ static void run_program(void)
     }
     rc = ABT_xstream_self(&G.xs[0].h);
     CHECK_RC(rc, "ABT_xstream_self");
+    rc = ABT_thread_self(&G.main_a.h);
+    CHECK_RC(rc, "ABT_thread_self");
+    G.main_a.migratable = 1;
+    G.main_a.cur_pool = G.xs[0].npools ? G.xs[0].pools[0] : 0;
     G.xs[0].created = 1;
     G.xs[0].rank = 0;
     setup_pools();
